@@ -16,13 +16,16 @@ def lexLe : List Nat → List Nat → Bool
 def sortNats (l : List Nat) : List Nat := l.mergeSort fun a b => decide (a ≤ b)
 def commas (l : List Nat) : String := ",".intercalate (l.map toString)
 
+/-- dict key order is not part of the property: every dict is printed with its keys sorted -/
+def sortByKey {β : Type} (l : List (Nat × β)) : List (Nat × β) := l.mergeSort fun a b => decide (a.1 ≤ b.1)
+
 def showComponents : Option (List (List Nat)) → String
   | none => "nofuel"
   | some cs => ";".intercalate (((cs.map sortNats).mergeSort lexLe).map commas)
 
 def showAdj : Option Adj → String
   | none => "nofuel"
-  | some g => ";".intercalate (g.map fun p => s!"{p.1}:{commas (sortNats p.2)}")
+  | some g => ";".intercalate ((sortByKey g).map fun p => s!"{p.1}:{commas (sortNats p.2)}")
 
 def showVerdict : Verdict → String
   | .ok => "ok"
@@ -41,7 +44,7 @@ def parseRings : Nat → List Int → Option (List (List Nat))
 
 def showMark (a : AtomMark) : String :=
   s!"{a.n}:{if a.inRing then 1 else 0}:{commas (sortNats a.ringSizes)}:" ++
-    ",".intercalate (a.bonds.map fun b => s!"{b.1}={if b.2 then 1 else 0}")
+    ",".intercalate ((sortByKey a.bonds).map fun b => s!"{b.1}={if b.2 then 1 else 0}")
 
 def handleCase (xs : List Int) : String :=
   match Mol.parse xs with
@@ -71,9 +74,9 @@ def handleCase (xs : List Int) : String :=
             "chk=" ++ showVerdict (checkSssrV gn rings),
             "chkb=" ++ (if checkSssr gn rings then "1" else "0"),
             "ref=" ++ ref,
-            "ar=" ++ ";".intercalate (ar.map fun p => s!"{p.1}:" ++ "/".intercalate (p.2.map commas)),
-            "ars=" ++ ";".intercalate (ars.map fun p => s!"{p.1}:{commas (sortNats p.2)}"),
-            "marks=" ++ ";".intercalate ((ringMarks m rings).map showMark)]
+            "ar=" ++ ";".intercalate ((sortByKey ar).map fun p => s!"{p.1}:" ++ "/".intercalate ((p.2.mergeSort lexLe).map commas)),
+            "ars=" ++ ";".intercalate ((sortByKey ars).map fun p => s!"{p.1}:{commas (sortNats p.2)}"),
+            "marks=" ++ ";".intercalate (((ringMarks m rings).mergeSort fun a b => decide (a.n ≤ b.n)).map showMark)]
 
 def showOptRing : Option (List Nat) → String
   | none => "raise"
